@@ -340,6 +340,10 @@ func pickSize(rnd interface{ Intn(int) int }) int {
 
 func genStmt(rnd interface{ Intn(int) int }, i int, sideK *int) stmt {
 	k := pickSize(rnd)
+	if i%97 == 11 { // a failing projection in front of (row 100) or behind (row 300) the first flushed batch, every run
+		pos := []int{100, 300}[(i/97)%2]
+		return stmt{Kind: "sel-midstream-error", SQL: fmt.Sprintf("SELECT id, 9223372036854775807 + IF(id = %d, 1, 0) AS boom FROM big WHERE id <= 600 ORDER BY id", pos), Lo: 1, Hi: 600, ErrPos: pos}
+	}
 	if i%97 == 7 {
 		return stmt{Kind: "sel-ordered", SQL: "SELECT id, payload, n, d FROM big WHERE id <= 5000 ORDER BY id", Ordered: true, Lo: 1, Hi: 5000}
 	}
@@ -689,7 +693,7 @@ func main() {
 	r.Floor(hits["handler.row.read"] > 0 && hits["handler.batch.full"] > 0 && hits["handler.batch.flush"] > 0, "the row spooling pipeline's schedule points were not all hit")
 	r.Floor(r.Counter("seq.compared.text") > 0 && r.Counter("seq.compared.binary") > 0, "a protocol route compared nothing")
 	r.Floor(r.Counter("seq.ok-results") > 0 && r.Counter("seq.errors-compared") > 0, "no OkResult or no error was compared")
-	r.Floor(r.Counter("seq.midstream-errors") > 0, "no mid-stream error reached a client")
+	r.Floor(r.Counter("seq.midstream-error-statements") > 0, "no statement failing in the middle of its result was compared")
 	r.Floor(r.Counter("conc.result-sets") > 0 && r.Counter("conc.abandoned") > 0, "the concurrent part did not run")
 	r.Finish()
 }
@@ -789,6 +793,9 @@ func runTriple(r *core.Run, t *triple, st stmt, i int) (connLost bool) {
 		}
 		r.Eval(1)
 		r.Count("seq.compared."+route, 1)
+		if st.ErrPos > 0 {
+			r.Count("seq.midstream-error-statements", 1)
+		}
 		mode, detail := compare(st, rr, w, route == "binary")
 		outcome := "rows"
 		switch {
